@@ -54,6 +54,8 @@ class _ValueIntrinsics(dict):
 
 
 EXTERNAL_MODEL = _ValueIntrinsics(EXTERNAL_MODEL)
+EXTERNAL_MODEL.setdefault("qsort", dict(writes=[0], ret=[]))
+EXTERNAL_MODEL.setdefault("bsearch", dict(writes=[], ret=[1]))
 for _n in ("strdup", "strndup"):
     EXTERNAL_MODEL.setdefault(_n, dict(writes=[], ret=[], fresh=True))
 # value-only libm / libc routines: take and return scalars (or only read through their pointer arguments)
